@@ -2,6 +2,7 @@ import Driver.Proto
 import Driver.Ledger
 import Driver.LedgerOracle
 import Driver.Fx
+import Driver.FxCache
 open Driver
 
 def runLedger (c : Case) : Res :=
@@ -21,6 +22,7 @@ def dispatch (c : Case) : Res :=
   match c.family with
   | "ledger" => runLedger c
   | "fx" => runFx c
+  | "fxcache" => runFxCache c
   | f => { verdict := "BADCASE", msg := s!"unknown family {f}" }
 
 def main : IO Unit := do
